@@ -154,6 +154,7 @@ enum Unit {
     Pan { clock: usize, rate: usize, ym: bool },
     Bounded { clock: usize, rate: usize, id: u64, samples: usize },
     Ports { id: u64, ops: usize },
+    PortsSound { id: u64 },
 }
 
 #[derive(Default)]
@@ -174,6 +175,7 @@ struct Stats {
     bounded_samples: u64,
     bounded_writes: u64,
     port_reads: u64,
+    port_sound: u64,
     port_regs: HashSet<u8>,
     samples: u64,
     distinct: HashSet<u64>,
@@ -866,6 +868,122 @@ fn ports_unit(ctx: &Ctx, seed: u64, st: &mut Stats, id: u64, ops: usize) {
     }
 }
 
+/// Port-level sound: the registers written through 0xFFFD/0xBFFD must reach the chip for every
+/// write, also when a write repeats the byte a register already holds – R13 restarts the envelope
+/// on every write. A one-shot decaying envelope is started, left to run out, and started again by
+/// rewriting the same shape; each start must be audible (tone energy = mean |x[i+1]-x[i]| of the
+/// frame after the write) and the played-out state silent. The tone pitch is measured through the
+/// machine's audio as well.
+fn ports_sound_unit(ctx: &Ctx, seed: u64, st: &mut Stats, id: u64) {
+    let mut rng = Rng::fork(seed ^ 0x50D, id);
+    let mut cfg = if id % 4 == 3 { Cfg::m48() } else { Cfg::m128() };
+    cfg.ay = true;
+    cfg.rate = 44100;
+    cfg.ay_mode = rng.below(3) as u8;
+    cfg.beeper = rng.bool();
+    let shape = *rng.pick(&[0u8, 1, 2, 3, 9]);
+    let ep: u16 = 250 + rng.below(300) as u16; // 16 steps of 16·EP/f_clk: 36..80 ms
+    let tp: u16 = 60 + rng.below(200) as u16;
+    let mut log: Vec<String> = vec![];
+    let res = catch(|| {
+        let mut m = Machine::new(cfg);
+        m.poke_bytes(0x9000, &[0x18, 0xFE]);
+        let mut rf = m.regs();
+        rf.pc = 0x9000;
+        rf.iff1 = false;
+        rf.iff2 = false;
+        rf.sp = 0xBF00;
+        m.set_regs(&rf);
+        m.run_frames(1);
+        m.drain_audio();
+        let mut wr = |m: &mut Machine, log: &mut Vec<String>, r: u8, v: u8, select: bool| {
+            if select {
+                m.out(0xFFFD, r);
+            }
+            m.out(0xBFFD, v);
+            log.push(format!("{}R{}={:02x}", if select { "" } else { "(no select) " }, r, v));
+        };
+        let energy = |m: &mut Machine| -> (f64, Vec<f64>) {
+            m.run_frames(1);
+            let v: Vec<f64> = m.drain_audio().iter().map(|s| (s.0 + s.1) as f64).collect();
+            if v.len() < 2 {
+                return (0.0, v);
+            }
+            (v.windows(2).map(|w| (w[1] - w[0]).abs()).sum::<f64>() / (v.len() - 1) as f64, v)
+        };
+        // fresh chip: the very first writes, zero values included
+        let ch = rng.below(3) as u8;
+        wr(&mut m, &mut log, 6, 0, true);
+        wr(&mut m, &mut log, 7, !(1u8 << ch) & 0x3F, true);
+        wr(&mut m, &mut log, 2 * ch, tp as u8, true);
+        wr(&mut m, &mut log, 2 * ch + 1, (tp >> 8) as u8, true);
+        wr(&mut m, &mut log, 8 + ch, 0x10, true);
+        wr(&mut m, &mut log, 11, ep as u8, true);
+        wr(&mut m, &mut log, 12, (ep >> 8) as u8, true);
+        wr(&mut m, &mut log, 13, shape, true);
+        let (e1, _) = energy(&mut m);
+        // (the chip advances with the samples the host takes: one frame per call, drained)
+        for _ in 0..7 {
+            let _ = energy(&mut m);
+        }
+        let (e2, _) = energy(&mut m);
+        // harmless rewrites of other registers with the values they hold
+        if rng.bool() {
+            wr(&mut m, &mut log, 11, ep as u8, true);
+            wr(&mut m, &mut log, 7, !(1u8 << ch) & 0x3F, true);
+        }
+        let reselect = rng.bool();
+        if !reselect {
+            m.out(0xFFFD, 13);
+        }
+        wr(&mut m, &mut log, 13, shape, reselect);
+        let (e3, _) = energy(&mut m);
+        // (the chip advances with the samples the host takes: one frame per call, drained)
+        for _ in 0..7 {
+            let _ = energy(&mut m);
+        }
+        // pitch: fixed volume, same tone period rewritten
+        wr(&mut m, &mut log, 8 + ch, 0x0F, true);
+        wr(&mut m, &mut log, 2 * ch, tp as u8, true);
+        m.run_frames(1);
+        m.drain_audio();
+        let mut x: Vec<f64> = vec![];
+        for _ in 0..12 {
+            m.run_frames(1);
+            x.extend(m.drain_audio().iter().map(|s| (s.0 + s.1) as f64));
+        }
+        (e1, e2, e3, x)
+    });
+    st.evals += 1;
+    st.port_sound += 1;
+    fp(st, 9, 0, 0, id, shape as u64);
+    let wit = || jobj! {"monitor"=>"ports-sound","case"=>id,"is128"=>cfg.is128,"shape"=>shape,"ep"=>ep,"tone_period"=>tp,"log"=>J::Arr(log.iter().map(|s|J::from(s.as_str())).collect())};
+    match res {
+        Err(p) => ctx.violation("ay-port-panic", &format!("AY port access panicked: {}", p), wit()),
+        Ok((e1, e2, e3, x)) => {
+            if std::env::var("VERIF_C18_DEBUG").is_ok() {
+                eprintln!("ports-sound id={} 128={} mode={} beeper={} shape={} ep={} tp={} e1={:.3e} e2={:.3e} e3={:.3e} log={:?}", id, cfg.is128, cfg.ay_mode, cfg.beeper, shape, ep, tp, e1, e2, e3, log);
+            }
+            if e1 < 1e-4 {
+                ctx.violation("ay-port-envelope-first-start-silent", &format!("envelope shape {} (EP {}) started through the ports on a fresh chip is silent (tone energy {:.2e})", shape, ep, e1), wit());
+            } else if e2 > e1 * 0.05 {
+                ctx.violation("ay-port-envelope-not-finished", &format!("one-shot envelope shape {} (EP {}, 16 steps = {:.0} ms) is still sounding 8 frames later (energy {:.2e} vs {:.2e} at the start)", shape, ep, 256.0 * ep as f64 / 1773.4, e2, e1), wit());
+            } else if e3 < e1 * 0.3 {
+                ctx.violation("ay-port-envelope-not-restarted", &format!("writing R13={} again (same shape) through the ports did not restart the envelope: tone energy {:.2e} after the rewrite vs {:.2e} after the first write", shape, e3, e1), wit());
+            }
+            let f = 1_773_400.0 / (16.0 * tp as f64) / 44100.0;
+            if x.len() < 8000 {
+                ctx.violation("ay-port-no-audio", &format!("12 frames delivered only {} samples", x.len()), wit());
+            } else if let Err(e) = check_pitch(&x[..x.len().min(tone_len(f))], f) {
+                ctx.violation("ay-port-tone-pitch", &format!("tone period {} written through the ports: {}", tp, e), wit());
+            }
+            if st.sample.len() < 1 {
+                st.sample.push(jobj! {"monitor"=>"ports-sound","shape"=>shape,"ep"=>ep,"energy_first_start"=>e1,"energy_played_out"=>e2,"energy_after_rewrite"=>e3});
+            }
+        }
+    }
+}
+
 // ------------------------------------------------------------------------------------ driver
 /// Low-rate probe: tone pitch + boundedness for (clock, rate) with rate·64 < clock.
 fn low_rate_probe(ctx: &Ctx, clock: usize, rate: usize) -> bool {
@@ -1011,6 +1129,9 @@ pub fn run(ctx: &Ctx) -> Evidence {
     for id in 0..nports {
         units.push(Unit::Ports { id, ops: 600 });
     }
+    for id in 0..ctx.scale(48, 2000) {
+        units.push(Unit::PortsSound { id });
+    }
     // long-running kinds first for load balance
     units.sort_by_key(|u| match u {
         Unit::Noise { .. } => 0,
@@ -1033,10 +1154,11 @@ pub fn run(ctx: &Ctx) -> Evidence {
             Unit::Pan { clock, rate, ym } => pan_unit(ctx, &mut st, *clock, *rate, *ym),
             Unit::Bounded { clock, rate, id, samples } => bounded_unit(ctx, seed, &mut st, *clock, *rate, *id, *samples),
             Unit::Ports { id, ops } => ports_unit(ctx, seed, &mut st, *id, *ops),
+            Unit::PortsSound { id } => ports_sound_unit(ctx, seed, &mut st, *id),
         }
         st
     });
-    let mut ev = Evidence::new("signal monitors on aym::AymPrecise (tone pitch for sampled/all 12-bit periods × 3 channels; envelope staircase vs data-sheet model for 16 shapes × periods incl. restart/no-restart; noise run-length quantum for 31 periods; volume monotonicity; 64 mixer masks × 3 channels; 7 pan modes × 3 channels; boundedness of random register histories, AY+YM, DC filter on/off) at clocks 1.7734/2 MHz and rates 8000…384000, plus AY port read-back/wrap histories on the 128K machine. distinct = distinct (monitor, clock, rate, parameter) cases judged");
+    let mut ev = Evidence::new("signal monitors on aym::AymPrecise (tone pitch for sampled/all 12-bit periods × 3 channels; envelope staircase vs data-sheet model for 16 shapes × periods incl. restart/no-restart; noise run-length quantum for 31 periods; volume monotonicity; 64 mixer masks × 3 channels; 7 pan modes × 3 channels; boundedness of random register histories, AY+YM, DC filter on/off) at clocks 1.7734/2 MHz and rates 8000…384000, plus AY port read-back/wrap histories on the 128K machine and port-level sound cases (one-shot envelope started, played out and restarted by rewriting the same R13 byte; tone pitch measured in the machine's audio). distinct = distinct (monitor, clock, rate, parameter) cases judged");
     let mut t = Stats::default();
     for r in res {
         t.evals += r.evals;
@@ -1055,6 +1177,7 @@ pub fn run(ctx: &Ctx) -> Evidence {
         t.bounded_samples += r.bounded_samples;
         t.bounded_writes += r.bounded_writes;
         t.port_reads += r.port_reads;
+        t.port_sound += r.port_sound;
         t.port_regs.extend(r.port_regs);
         t.samples += r.samples;
         t.distinct.extend(r.distinct);
@@ -1084,6 +1207,7 @@ pub fn run(ctx: &Ctx) -> Evidence {
     ev.add_num("random_history_samples", t.bounded_samples);
     ev.add_num("random_history_register_writes", t.bounded_writes);
     ev.add_num("port_readbacks_compared", t.port_reads);
+    ev.add_num("port_level_envelope_restart_and_pitch_cases", t.port_sound);
     ev.add_num("port_registers_read_back", t.port_regs.len() as u64);
     ev.add_num("samples_generated", t.samples);
     ev.add_num("low_rate_probes", probes);
@@ -1101,6 +1225,7 @@ pub fn run(ctx: &Ctx) -> Evidence {
     ctx.require("volume ladders", t.volume, 4);
     ctx.require("random-history samples", t.bounded_samples, 1_000_000);
     ctx.require("port read-backs", t.port_reads, 3_000);
+    ctx.require("port-level sound cases", t.port_sound, 40);
     ctx.require("port registers read back", t.port_regs.len() as u64, 16);
     ev.assumptions.push("AY-3-8910 data sheet: 16 envelope levels per ramp, each 16·EP/f_clk; mixer output = (tone OR tone-off) AND (noise OR noise-off); implemented register bits 8/4/5/8/5/16/4".into());
     ev.assumptions.push("tone periods 0/1 are at the Nyquist limit of an f_clk/8 model and are judged for equivalence and boundedness only".into());
